@@ -16,7 +16,9 @@
    below will_diff_counter_parent_deletion = True, which is delegated to [hk_counter].
    The arm `isinstance(base, str) and chunktype == "AP/AP"` of _merge_lists is unreachable (the
    function starts with `assert isinstance(base, list)`) and is omitted. *)
-From Coq Require Import List NArith ZArith Bool Lia String.
+From Coq Require Import String.
+From Coq Require Import List NArith ZArith Bool Lia.
+
 From NB Require Import Base.Res Base.Json Base.PyStr Diff.DiffFormat Diff.Patch Diff.GenericDiff
      Diff.Codec Merge.SortKey Merge.Chunks Merge.Decisions Merge.Apply Gen.MergeFacts.
 Import ListNotations.
@@ -40,14 +42,14 @@ Definition no_hooks : hooks :=
   {| hk_list := fun _ _ _ _ => unsupported; hk_dict := fun _ _ _ _ => unsupported;
      hk_inline_source := fun _ _ _ _ => unsupported; hk_counter := fun _ _ _ _ _ => unsupported |}.
 
-Definition s_inline_source := of_ascii "inline-source"%string.
-Definition s_inline_outputs := of_ascii "inline-outputs"%string.
-Definition s_inline_cells := of_ascii "inline-cells"%string.
-Definition s_remove := of_ascii "remove"%string.
-Definition s_clear_all := of_ascii "clear-all"%string.
-Definition s_record_conflict := of_ascii "record-conflict"%string.
-Definition s_inline_attachments := of_ascii "inline-attachments"%string.
-Definition s_use_dash := of_ascii "use-"%string.
+Definition s_inline_source := of_ascii "inline-source".
+Definition s_inline_outputs := of_ascii "inline-outputs".
+Definition s_inline_cells := of_ascii "inline-cells".
+Definition s_remove := of_ascii "remove".
+Definition s_clear_all := of_ascii "clear-all".
+Definition s_record_conflict := of_ascii "record-conflict".
+Definition s_inline_attachments := of_ascii "inline-attachments".
+Definition s_use_dash := of_ascii "use-".
 
 Definition ostr_eqb (s : option pystr) (t : pystr) : bool :=
   match s with Some x => str_eqb x t | None => false end.
